@@ -46,17 +46,15 @@ Definition is_nil {A : Type} (l : list A) : bool := match l with [] => true | _ 
 Definition model_of (c : case) :=
   (build (k_spec c), is_nil (mutation_events (k_spec c)), applicable (k_spec c)).
 
-Definition reached_decorator (o : obs) : bool :=
-  match o with ODefined | ORejected PDeco _ => true | _ => false end.
-
-(** Model mode: the real statement did what the model says, and the class object was
-    written to exactly when the model says so. *)
+(** Model mode: the real statement did what the model says, and when the decorator
+    raised, the class object was written to exactly if the model says so (never).
+    The property is silent about the given class after a successful decoration
+    ([defined_class_patched_iff_dict] is a theorem about the model only). *)
 Definition model_ok (c : case) : bool :=
   obs_matches (build (k_spec c)) (k_seen c) &&
-  match k_untouched c with
-  | Some u => negb (reached_decorator (k_seen c))
-              || Bool.eqb u (is_nil (mutation_events (k_spec c)))
-  | None => true
+  match k_seen c, k_untouched c with
+  | ORejected PDeco _, Some u => Bool.eqb u (is_nil (mutation_events (k_spec c)))
+  | _, _ => true
   end.
 
 (** Property mode: the observation alone against the property's own list. *)
